@@ -356,7 +356,7 @@ void appendCycles(Choices& c, gen::Game& g, int cycles, bool vary) {
     ref::Move cyc[4]; bool have = false;
     auto fits = [&](const ref::Pos& p) { ref::Pos q = p; for (int j = 0; j < 4; j++) { if (!ref::isLegal(q, cyc[j]) || !reversible(q, cyc[j])) return false; q = ref::make(q, cyc[j]); } return q.sameBoard(p); };
     for (int i = 0; i < cycles; i++) {
-        if (!have || (vary && c.chance(1, 3)) || !fits(g.pos.back())) {
+        if (!have || (vary && c.chance(1, 2)) || !fits(g.pos.back())) {
             ref::Move fresh[4];
             if (findCycle(c, g.pos.back(), fresh)) { for (int j = 0; j < 4; j++) cyc[j] = fresh[j]; have = true; }
             else if (!have || !fits(g.pos.back())) return;
@@ -462,7 +462,7 @@ bool genFiftyCase(Choices& c, UciCase& k) {
     }
     if (!ref::sane(base) || ref::legalMoves(base).empty()) return false;
     int target = c.of(std::vector<int>{100, 100, 100, 99, 101, 104, 110, 98, 100}); // half-move clock after m (when m is reversible)
-    int byPlay = c.chance(1, 2) ? c.range(0, 3) : c.chance(1, 2) ? c.range(4, 12) : c.range(20, 27); // cycles of 4 plies
+    int byPlay = c.chance(1, 2) ? c.range(0, 3) : c.chance(1, 2) ? c.range(4, 12) : c.chance(1, 2) ? c.range(20, 27) : 27; // cycles of 4 plies (27: the clock comes from play alone)
     int h0 = target - 1 - 4 * byPlay;
     if (h0 < 0) { byPlay = (target - 1) / 4; h0 = target - 1 - 4 * byPlay; }
     base.hmc = h0; base.fmc = std::max(base.fmc, h0 / 2 + 1);
@@ -724,7 +724,9 @@ Cmd askComputer(const std::string& sub, Game& g, const Model& m, int depth, cons
     vh::clearCurrent();
     cmd.text = s;
     const ref::Pos& p = m.now();
-    auto findMove = [&](const std::string& t, ref::Move& out) { for (auto& mv : ref::legalMoves(p)) if (ref::san(p, mv, true) == t || ref::san(p, mv, false) == t) { out = mv; return true; } return false; };
+    // texel writes SAN without '=' in promotions; compare modulo the optional decorations '=', '+', '#'
+    auto bare = [](const std::string& x) { std::string r; for (char ch : x) if (ch != '=' && ch != '+' && ch != '#') r += ch; return r; };
+    auto findMove = [&](const std::string& t, ref::Move& out) { for (auto& mv : ref::legalMoves(p)) if (bare(ref::san(p, mv, false)) == bare(t)) { out = mv; return true; } return false; };
     auto failCase = [&](const std::string& msg) { std::vector<Cmd> all = sofar; Cmd probe = cmd; probe.kind = "ask"; all.push_back(probe); Value j = cmdsJson(all); j["computer_answer"] = s; j["fen"] = ref::toFEN(p); vh::fail(j, msg); };
     ref::Move mv;
     if (s.rfind("draw rep", 0) == 0 || s.rfind("draw 50", 0) == 0) {
